@@ -71,8 +71,8 @@ func formatTable(p *Prog) []formatEntry {
 }
 
 var codecFamilies = map[string]string{
-	"encoding/json":                 "json",
-	"gopkg.in/yaml.v3":              "yaml",
+	"encoding/json":                   "json",
+	"gopkg.in/yaml.v3":                "yaml",
 	"github.com/pelletier/go-toml/v2": "toml",
 }
 
@@ -190,7 +190,9 @@ func ruleC05Sep(p *Prog, r *Result) {
 			r.Check(okSep, "C05.sep", fmt.Sprintf("%s / separator %q is recognised by %s", f.writer, sep, f.re), p.InstrPos(cs.Instr), fmt.Sprintf("the reader's pattern %q splits a stream at this separator", pat),
 				fmt.Sprintf("the writer separates documents with %q but the reader splits on %q: a multi-document stream written by bkl is not read back as the same documents", sep, pat))
 		}
-		r.Floor("C05.sep", f.writer+" separator writes", n, 1)
+		if f.re == "tomlRE" {
+			r.Floor("C05.sep", f.writer+" separator writes", n, 1)
+		}
 		// the reader splits with that pattern
 		rd := strings.Replace(f.writer, "Marshal", "Unmarshal", 1)
 		uses := false
